@@ -5,8 +5,19 @@ use crate::mem::{get_executable_memory_slice, memory_read_byte, memory_write_byt
 
 pub fn run_code_block(registers: &mut Registers, mem: *mut MemoryAreas) -> u8 {
   let mut status = cpu::STATUS_NORMAL;
+  let block_start = registers.ip;
   loop {
     let started_in_fixed_bank = registers.ip < 0x4000;
+    // An instruction that begins in bank 0 and is cut by the boundary begins
+    // a block of its own (the recompiler ends its blocks at the same place).
+    if registers.ip != block_start && registers.ip >= 0x3ffe && registers.ip < 0x4000 {
+      let ip = registers.ip as u16;
+      let bytes = [memory_read_byte(mem, ip), memory_read_byte(mem, ip + 1), memory_read_byte(mem, ip + 2)];
+      let (_, length, _) = decode(&bytes);
+      if registers.ip as usize + length > 0x4000 {
+        break;
+      }
+    }
     match run_next_op(registers, mem) {
       Some((op_status, should_break)) => {
         status = op_status;
